@@ -167,9 +167,13 @@ func (tr *FnTr) contractCall(x ssa.Value, f *ssa.Function, ct *FuncContract, arg
 	pre := tr.st
 	ctx := tr.calleeCtx(f, args, nil, pre, pre)
 	for i, c := range ct.Requires {
-		g := ctx.evalBool(c.E)
+		g := ctx.goal(c.E)
 		tr.vc.Oblige(tr.prefix+"pre."+name, labelOr(c.Label, i+1), Implies(tr.st.Reach, g), tr.pos(tr.curInstr.Pos()))
 		tr.st.Reach = tr.vc.Def("reach", And(tr.st.Reach, g))
+	}
+	if (ct.NoPanicCheck || ct.MayPanic) && !tr.top.recovering && !tr.excMode && !(tr.top.ct != nil && tr.top.ct.NoPanicCheck) {
+		// the callee's contract does not promise absence of panics
+		tr.vc.Oblige(tr.prefix+"nopanic.callee."+name, "", Implies(tr.st.Reach, tFalse), tr.pos(tr.curInstr.Pos()))
 	}
 	if ct.Assumed {
 		tr.vc.Assumed = appendUniq(tr.vc.Assumed, "assumed contract: "+ct.Pkg+"."+name)
@@ -181,6 +185,12 @@ func (tr *FnTr) contractCall(x ssa.Value, f *ssa.Function, ct *FuncContract, arg
 		var frame []cellRange
 		for _, m := range ct.Modifies {
 			frame = append(frame, ctx.evalLval(m.E)...)
+		}
+		for _, r := range frame {
+			tr.writeCheck(r.Obj, r.Lo, r.Hi)
+		}
+		if !ct.HasModifies && tr.top.storeChecks {
+			tr.vc.Oblige(tr.prefix+"frame.store", "", Implies(tr.st.Reach, tFalse), tr.pos(tr.curInstr.Pos()))
 		}
 		if !ct.HasModifies {
 			// no frame declared: conservatively havoc everything reachable
@@ -208,7 +218,7 @@ func (tr *FnTr) contractCall(x ssa.Value, f *ssa.Function, ct *FuncContract, arg
 	tr.st = post
 	pctx := tr.calleeCtx(f, args, results, post, pre)
 	for _, c := range ct.Ensures {
-		tr.vc.Assume(Implies(post.Reach, pctx.evalBool(c.E)))
+		tr.vc.Assume(Implies(post.Reach, pctx.fact(c.E)))
 	}
 	return res
 }
@@ -239,6 +249,9 @@ func (tr *FnTr) abstractCallVals(x ssa.Value, why string) Val {
 
 // havocAll forgets everything about memory except the function's private local objects.
 func (tr *FnTr) havocAll(why string) {
+	if tr.top.storeChecks {
+		tr.vc.Oblige(tr.prefix+"frame.store", "", Implies(tr.st.Reach, tFalse), "")
+	}
 	tr.st.Mem = tr.havocAllMem(tr.st.Mem, "abs")
 	na := tr.vc.Fresh("alloc_abs", SInt)
 	tr.vc.Assume(Le(tr.st.Alloc, na))
@@ -462,6 +475,7 @@ func (tr *FnTr) builtinCopy(dst, src Val) Val {
 
 // copyCells writes cnt cells from srcArr[soff..] into object dobj at doff.
 func (tr *FnTr) copyCells(dobj, doff, srcArr, soff, cnt *Term) {
+	tr.writeCheck(dobj, doff, Add(doff, cnt))
 	old := Select(tr.st.Mem, dobj)
 	if c := cnt.IntConst(); c != nil && c.IsInt64() && c.Int64() <= 80 {
 		a := old
